@@ -531,3 +531,13 @@ Proof.
 Qed.
 
 End Equiv.
+
+(** the page size is not observable through the results of item-level scripts *)
+Theorem arcslab_page_size_irrelevant spp1 spp2 :
+  (1 <= spp1)%nat -> (1 <= spp2)%nat -> forall ops,
+  forallb item_op ops = true ->
+  arc_exec spp1 (init spp1) ops = arc_exec spp2 (init spp2) ops.
+Proof.
+  intros H1 H2 ops Hall.
+  rewrite (arcslab_equiv_reference spp1 H1 ops Hall), (arcslab_equiv_reference spp2 H2 ops Hall). reflexivity.
+Qed.
